@@ -40,6 +40,12 @@ theorem Woke.trans {a b c : State} (h1 : Woke a b) (h2 : Woke b c) : Woke a c :=
   · right; refine ⟨by rw [e2, e1], q2, by rw [← e1]; exact d2, by rw [← h1.n]; exact l2⟩
   · right; refine ⟨by rw [e2, e1], q2, d1, l1⟩
 
+theorem Woke.abort (s : State) : Woke s (abort s) := by
+  unfold Tbox.C18.abort
+  split
+  · exact Woke.refl s
+  · exact ⟨rfl, rfl, rfl, rfl, rfl, rfl, rfl, rfl, rfl, rfl, rfl, rfl, rfl, rfl, fun _ h => h, fun _ => Or.inl rfl⟩
+
 theorem Woke.tag (s : State) (t : String) : Woke s (tag s t) :=
   ⟨rfl, rfl, rfl, rfl, rfl, rfl, rfl, rfl, rfl, rfl, rfl, rfl, rfl, rfl, fun _ h => h, fun _ => Or.inl rfl⟩
 
